@@ -372,7 +372,7 @@ def core_part(prop, tier, seed):
     try:
         binary = core.build_harness(wd)
         cfgs = CORE_CFGS[prop][0 if tier == "quick" else 1]
-        nsim, nrand = (30, 15) if tier == "quick" else (400, 150)
+        nsim, nrand = (30, 15) if tier == "quick" else (200, 80)
         states = trans = 0
         model, scs, expect = [], [], {}
         for name in cfgs:
